@@ -1,12 +1,15 @@
 #!/bin/bash
-# tools/try_mutant.sh <patch.diff> <ID> [tier]  — apply a seeded change to /repo, run one check, undo.
+# tools/try_mutant.sh <patch.diff> <ID> [tier]  — run one check against a scratch worktree of /repo with a
+# seeded change applied (VERIF_REPO), evidence and replays redirected to a scratch directory; /repo and
+# /verif/evidence are not touched.
 set -u
-patch="$1"; id="$2"; tier="${3:-quick}"
-cd /repo || exit 2
-if ! git diff --quiet; then echo "/repo has local changes; refusing"; exit 2; fi
-git apply "$patch" || { echo "patch does not apply"; exit 2; }
+patch="$(realpath "$1")"; id="$2"; tier="${3:-quick}"
+wt="/tmp/wt_try_$$"; sc="/tmp/try_out_$$"
+git -C /repo worktree add -q --detach "$wt" HEAD || exit 2
+mkdir -p "$sc"
+if ! git -C "$wt" apply "$patch"; then echo "patch does not apply"; git -C /repo worktree remove --force "$wt"; rm -rf "$sc"; exit 2; fi
 cd /verif
-./check "$id" --tier "$tier" 2>&1 | grep -E "VIOLATION|KNOWN-FINDING|site=|broken|^\[$id\]" | head -12
+VERIF_REPO="$wt" VERIF_EVID_DIR="$sc" VERIF_OUT_DIR="$sc" ./check "$id" --tier "$tier" 2>&1 | grep -E "VIOLATION|KNOWN-FINDING|site=|broken|^\[$id\]" | head -12
 rc=${PIPESTATUS[0]}
-git -C /repo checkout -- .
+git -C /repo worktree remove --force "$wt"; rm -rf "$sc"
 echo "rc=$rc"
